@@ -737,7 +737,7 @@ func within(d time.Duration, f func()) bool {
 func (r *run) hang(what string) error { return r.hangOpt(what, true) }
 
 func (r *run) hangOpt(what string, rescue bool) error {
-	wd := watchdog()
+	wd := r.patience()
 	stuck := dnsGoroutines()
 	evs := r.log.String()
 	r.release()
@@ -746,7 +746,9 @@ func (r *run) hangOpt(what string, rescue bool) error {
 		fmt.Fprintf(os.Stderr, "c13: INFRASTRUCTURE: %s did not finish within %v but no goroutine is inside miekg/dns\n%s\n", what, wd, evs)
 		os.Exit(2)
 	}
-	hangProven.Store(true)
+	if r.root().sdcWatch == 0 { // (the known hang of a probe does not shorten the watchdog of the cases that follow)
+		hangProven.Store(true)
+	}
 	var sb strings.Builder
 	fmt.Fprintf(&sb, "I7: %s did not return within the watchdog (%v) with ReadTimeout=IdleTimeout=1h; %d goroutine(s) stuck inside miekg/dns:\n", what, wd, len(stuck))
 	for i, g := range stuck {
@@ -764,6 +766,23 @@ func (r *run) hangOpt(what string, rescue bool) error {
 		wedged.Store(true)
 	}
 	return errors.New(sb.String())
+}
+
+// root is the run that owns the execution (the first run).
+func (r *run) root() *run {
+	if r.parent != nil {
+		return r.parent
+	}
+	return r
+}
+
+// patience is how long a call that has nothing left to wait for may take: the watchdog, or the
+// probe's own bound for a hang that is known.
+func (r *run) patience() time.Duration {
+	if w := r.root().sdcWatch; w > 0 {
+		return w
+	}
+	return watchdog()
 }
 
 // release frees every held handler.
@@ -1773,7 +1792,7 @@ func (r *run) secondRun(mode string, serve1Done, clients1Done, sd1Done <-chan st
 		if mode == "shutting" {
 			select {
 			case <-sd1Done:
-			case <-time.After(watchdog()):
+			case <-time.After(r.patience()):
 				return r.hang("the Shutdown call of run 1 (its handlers are released or its context is cancelled; the same Server value has been started again meanwhile)")
 			}
 		}
